@@ -92,11 +92,18 @@ Proof. intros m a [E|[]] Ha; subst m. destruct Ha as [E|[E|[E|[]]]]; subst a; re
 Theorem C08_idempotent : forall d : description, strip (strip d) = strip d.
 Proof. exact strip_idempotent. Qed.
 
-(* The modelled step is total: unparsable text comes back unchanged, anything else as a description
-   (panic freedom of the pion parsers themselves is observed by the check, not proved). *)
-Theorem C08_total : forall p : option description,
-  strip_text p = Unchanged \/ exists d, strip_text p = Stripped d.
+(* The modelled step is total: the text comes back unchanged or as a description
+   (panic freedom of the pion parsers themselves is observed by the check, not proved).  [mok] is the
+   outcome of desc.Marshal() on the stripped description: the code returns the input text when
+   desc.Unmarshal OR desc.Marshal fails. *)
+Theorem C08_total : forall (mok : bool) (p : option description),
+  strip_text mok p = Unchanged \/ exists d, strip_text mok p = Stripped d.
 Proof. exact strip_text_total. Qed.
+
+Theorem C08_text_unchanged_iff : forall (mok : bool) (p : option description),
+  (strip_text mok p = Unchanged <-> p = None \/ mok = false)
+  /\ (forall d', strip_text mok p = Stripped d' -> mok = true /\ exists d, p = Some d /\ d' = strip d).
+Proof. intros mok p. split; [apply strip_text_unchanged_iff|apply strip_text_stripped]. Qed.
 
 (* ------------------------------------------------------------------------------------------------
    The whole description, line by line (Model/SdpStripLines.v: session part, media heads and all
@@ -153,62 +160,120 @@ Proof.
 Qed.
 
 (* ------------------------------------------------------------------------------------------------
-   "Unless local addresses are explicitly kept": the two call sites.  [to_send keep p] is the SDP text
+   "Unless local addresses are explicitly kept": the two call sites.  [to_send keep mok p] is the SDP text
    inside the message for the broker ([Original] = the very string the peer connection produced).
 
-   Flag off: what is sent is never the original text of a parsable description (there is no fall-back to
-   the unstripped text, not even when every candidate was local) and none of its lines is a local host
-   candidate; flag on: the original text, untouched. *)
-Theorem C08_sent_stripped_unless_kept : forall (p : option sdesc),
-  to_send true p = Original
-  /\ (to_send false p = Original -> p = None)
-  /\ (forall l, to_send false p = Lines l ->
-        (forall x, In x l -> bad_host_line x = false)
+   [mok] = desc.Marshal() on the stripped description returned no error (util.go: `bts, err := desc.Marshal();
+   if err != nil { return str }`; the driver reports it for every case).
+   Flag on: the original text, untouched.  Flag off and Marshal succeeded: what is sent is never the original
+   text of a parsable description (no fall-back to the unstripped text, not even when every candidate was
+   local).  Flag off, whatever Marshal did: anything freshly marshalled that is sent holds no local host
+   candidate line and is the input minus exactly those lines (and then Marshal did succeed). *)
+Theorem C08_sent_stripped_unless_kept : forall (mok : bool) (p : option sdesc),
+  to_send true mok p = Original
+  /\ (to_send false true p = Original -> p = None)
+  /\ (forall l, to_send false mok p = Lines l ->
+        mok = true
+        /\ (forall x, In x l -> bad_host_line x = false)
         /\ exists d, p = Some d /\ l = filter (fun x => negb (bad_host_line x)) (marshal d)).
 Proof.
-  intros p. split; [apply to_send_keep|]. split; [apply to_send_original_only_unparsable|apply to_send_strips].
+  intros mok p. split; [apply to_send_keep|]. split; [apply to_send_original_only_unparsable|apply to_send_strips].
 Qed.
 
 Example C08_sent_all_local_nonvacuous :
   let loc := mkAttr 3 (Cand Host (Some [10;0;0;1])) in
-  to_send false (Some (mkSdesc [0] [mkMsec [1; 2] [loc; mkAttr 4 (Cand Host (Some [127;0;0;1]))]]))
-  = Lines [mkLine 0 KSession; mkLine 1 KHead; mkLine 2 KHead].
-Proof. reflexivity. Qed.
+  to_send false true (Some (mkSdesc [0] [mkMsec [1; 2] [loc; mkAttr 4 (Cand Host (Some [127;0;0;1]))]]))
+  = Lines [mkLine 0 KSession; mkLine 1 KHead; mkLine 2 KHead]
+  /\ to_send false true None = Original.
+Proof. split; reflexivity. Qed.
+
+(* When Marshal fails the code falls back to the ORIGINAL text: flag off, the original goes out exactly
+   when one of the two pion calls failed - and then it goes out with its local host candidates. *)
+Theorem C08_marshal_failure_sends_original : forall (mok : bool) (p : option sdesc),
+  (to_send false mok p = Original <-> p = None \/ mok = false)
+  /\ to_send false false p = Original.
+Proof. intros mok p. split; [apply to_send_original_iff|apply to_send_marshal_failed]. Qed.
+
+Theorem C08_marshal_failure_leaks :
+  let d := mkSdesc [0] [mkMsec [1] [mkAttr 2 (Cand Host (Some [10;0;0;1]))]] in
+  to_send false false (Some d) = Original
+  /\ (exists l, In l (marshal d) /\ bad_host_line l = true)
+  /\ to_send false true (Some d) = Lines [mkLine 0 KSession; mkLine 1 KHead].
+Proof. exact marshal_failure_leaks. Qed.
+
+(* So the first sentence of the property rests on a contract of pion/sdp: Marshal does not fail on an
+   unmarshalled description with some attributes removed.  Over ANY library function [pion_marshal]
+   (None = it returned an error) that writes the lines of the structure when it succeeds: if it never
+   fails, then with the flag off the original text is sent only for unparsable input and every parsable
+   description is sent stripped ... *)
+Theorem C08_sent_stripped_under_marshal_contract : forall (pion_marshal : sdesc -> option (list line)),
+  (forall d l, pion_marshal d = Some l -> l = marshal d) ->
+  (forall d, pion_marshal d <> None) ->
+  forall p : option sdesc,
+    (to_send_lib pion_marshal false p = Original -> p = None)
+    /\ (forall l, to_send_lib pion_marshal false p = Lines l ->
+          (forall x, In x l -> bad_host_line x = false)
+          /\ exists d, p = Some d /\ l = filter (fun x => negb (bad_host_line x)) (marshal d))
+    /\ (forall d, p = Some d -> to_send_lib pion_marshal false p = Lines (filter (fun x => negb (bad_host_line x)) (marshal d))).
+Proof. exact to_send_lib_contract. Qed.
+
+(* ... without the second hypothesis the only thing that can be said is where the original goes out ... *)
+Theorem C08_sent_original_only_on_library_failure : forall (pion_marshal : sdesc -> option (list line)),
+  (forall d l, pion_marshal d = Some l -> l = marshal d) ->
+  forall p : option sdesc,
+    to_send_lib pion_marshal false p = Original ->
+    p = None \/ exists d, p = Some d /\ pion_marshal (strip_sdesc d) = None.
+Proof. exact to_send_lib_original. Qed.
+
+(* ... and the hypothesis is needed: a Marshal that is right whenever it succeeds but fails once sends the
+   unstripped description, local host candidate included *)
+Theorem C08_marshal_contract_needed :
+  exists (pion_marshal : sdesc -> option (list line)) (d : sdesc),
+    (forall d l, pion_marshal d = Some l -> l = marshal d)
+    /\ pion_marshal (strip_sdesc d) = None
+    /\ to_send_lib pion_marshal false (Some d) = Original
+    /\ exists l, In l (marshal d) /\ bad_host_line l = true.
+Proof. eexists. exists leak_witness. exact marshal_contract_needed. Qed.
+
+Example C08_marshal_contract_nonvacuous :
+  (forall d l, observed_marshal true d = Some l -> l = marshal d) /\ (forall d, observed_marshal true d <> None).
+Proof. split; [intros d l H; inversion H; reflexivity | intros d; discriminate]. Qed.
 
 (* client: the channel built by newBrokerChannelFromConfig carries config.KeepLocalAddresses and nothing
    else decides: not the broker URL, the AMP cache URL or the front domain *)
-Theorem C08_client_offer : forall (cfg : client_config) (urls_ok : bool) (p : option sdesc) (s : sent),
-  client_offer_sent cfg urls_ok p = Some s ->
+Theorem C08_client_offer : forall (cfg : client_config) (urls_ok mok : bool) (p : option sdesc) (s : sent),
+  client_offer_sent cfg urls_ok mok p = Some s ->
   (cc_keep cfg = true -> s = Original)
   /\ (cc_keep cfg = false ->
-        (s = Original /\ p = None)
-        \/ exists d, p = Some d /\ s = Lines (filter (fun x => negb (bad_host_line x)) (marshal d))
+        (s = Original /\ (p = None \/ mok = false))
+        \/ exists d, mok = true /\ p = Some d /\ s = Lines (filter (fun x => negb (bad_host_line x)) (marshal d))
                      /\ forall x, In x (filter (fun x => negb (bad_host_line x)) (marshal d)) -> bad_host_line x = false).
 Proof. exact client_site. Qed.
 
-Theorem C08_client_urls_irrelevant : forall (cfg cfg' : client_config) (p : option sdesc),
-  cc_keep cfg = cc_keep cfg' -> client_offer_sent cfg true p = client_offer_sent cfg' true p.
+Theorem C08_client_urls_irrelevant : forall (cfg cfg' : client_config) (mok : bool) (p : option sdesc),
+  cc_keep cfg = cc_keep cfg' -> client_offer_sent cfg true mok p = client_offer_sent cfg' true mok p.
 Proof. exact client_site_urls_irrelevant. Qed.
 
 Example C08_client_offer_nonvacuous :
   let d := mkSdesc [0] [mkMsec [1] [mkAttr 2 (Cand Host (Some [192;168;0;2])); mkAttr 3 (Cand Srflx (Some [192;0;2;9]))]] in
-  client_offer_sent (mkCC (bs "http://127.0.0.1:8080/") [] [] false) true (Some d)
+  client_offer_sent (mkCC (bs "http://127.0.0.1:8080/") [] [] false) true true (Some d)
     = Some (Lines [mkLine 0 KSession; mkLine 1 KHead; mkLine 3 (KAttr (Cand Srflx (Some [192;0;2;9])))])
-  /\ client_offer_sent (mkCC (bs "https://broker.example/") [] [] true) true (Some d) = Some Original.
-Proof. split; reflexivity. Qed.
+  /\ client_offer_sent (mkCC (bs "https://broker.example/") [] [] true) true true (Some d) = Some Original
+  /\ client_offer_sent (mkCC (bs "https://broker.example/") [] [] false) true false (Some d) = Some Original.
+Proof. repeat split; reflexivity. Qed.
 
 (* proxy: sendAnswer on a SignalingServer built by newSignalingServer(url, keep) *)
-Theorem C08_proxy_answer : forall (url : bytes) (url_ok keep : bool) (p : option sdesc) (s : sent),
-  proxy_answer_sent url url_ok keep p = Some s ->
+Theorem C08_proxy_answer : forall (url : bytes) (url_ok keep mok : bool) (p : option sdesc) (s : sent),
+  proxy_answer_sent url url_ok keep mok p = Some s ->
   (keep = true -> s = Original)
   /\ (keep = false ->
-        (s = Original /\ p = None)
-        \/ exists d, p = Some d /\ s = Lines (filter (fun x => negb (bad_host_line x)) (marshal d))
+        (s = Original /\ (p = None \/ mok = false))
+        \/ exists d, mok = true /\ p = Some d /\ s = Lines (filter (fun x => negb (bad_host_line x)) (marshal d))
                      /\ forall x, In x (filter (fun x => negb (bad_host_line x)) (marshal d)) -> bad_host_line x = false).
 Proof. exact proxy_site. Qed.
 
 Example C08_proxy_answer_nonvacuous :
-  proxy_answer_sent (bs "http://broker/") true false (Some (mkSdesc [0] [mkMsec [1] [mkAttr 2 (Cand Host (Some [10;1;2;3]))]]))
+  proxy_answer_sent (bs "http://broker/") true false true (Some (mkSdesc [0] [mkMsec [1] [mkAttr 2 (Cand Host (Some [10;1;2;3]))]]))
     = Some (Lines [mkLine 0 KSession; mkLine 1 KHead])
-  /\ proxy_answer_sent (bs "http://broker/") true true None = Some Original.
+  /\ proxy_answer_sent (bs "http://broker/") true true true None = Some Original.
 Proof. split; reflexivity. Qed.
